@@ -88,7 +88,9 @@ def make_overlay(mode, extra_replace=None):
                     continue
                 cmd += ["-add", f"{dst}={src}"]
             else:
-                cmd += ["-add", f"{dst}={src}"]
+                # shared helpers (in-process HTTP, recording store, ...): under the controlled
+                # scheduler their goroutines, locks and channels must be the scheduler's too
+                cmd += ["-add", f"{dst}={src}:instr" if mode == "instr" else f"{dst}={src}"]
     pkgs = list(INSTR_PKGS)
     for pkg in HARNESS_PKGS.values():
         if pkg not in pkgs:
